@@ -7,6 +7,10 @@
               reachable in the call graph from its owner's stop()/close()
   C19-CLOSE   RTCPeerConnection.close() stops an object of every stoppable class it owns, then updates the three
               states, drops listeners and resolves the close future; transceiver.stop() stops receiver and sender
+  C19-STATES  with the closed latch set, __updateIceConnectionState / __updateConnectionState evaluate to `closed` for every combination
+              of transport states and emit nothing once closed
+  C19-CHANNELS (= C13-CLOSEALL) closing the association closes the channels in every container that can hold one
+  C19-TRACK   RTCRtpReceiver.stop() signals end-of-track on every path on which a remote track exists (started or not)
 Does not decide: bounded-time completion under every interleaving, absence of events after close.
 """
 from __future__ import annotations
